@@ -38,6 +38,21 @@ def collect_apps(exprs, decls_by_id, seen, out):
             stack.append(e.body())
 
 
+def collect_terms(exprs, decls_by_id, seen, out):
+    """collect the application TERMS of the given declarations"""
+    stack = list(exprs)
+    while stack:
+        e = stack.pop()
+        i = e.get_id()
+        if i in seen:
+            continue
+        seen.add(i)
+        if z3.is_app(e):
+            if e.decl().get_id() in decls_by_id and e.num_args() > 0:
+                out[i] = e
+            stack.extend(e.children())
+
+
 def saturate(ctx, base, schemas, extra_terms=(), rounds=ROUNDS):
     """Return base + instances of the schemas at the terms occurring in the (growing) query."""
     facts = list(base)
@@ -62,10 +77,37 @@ def saturate(ctx, base, schemas, extra_terms=(), rounds=ROUNDS):
                 facts.extend(new + [inst])
                 frontier.extend(new + [inst])
     pair_done = set()
+    idx_decls = {d.get_id(): d for d in getattr(ctx, "index_funcs", [])}
+    idx_schemas = [s for s in schemas if getattr(s, "at_index_terms", False) and s.nvars == 1]
+    idx_seen, idx_done, idx_apps = set(), set(), {}
+    for s in idx_schemas:
+        for t in list(extra_terms) + list(getattr(ctx, "index_terms", [])):
+            if (id(s), t.get_id()) in idx_done:
+                continue
+            idx_done.add((id(s), t.get_id()))
+            saved = len(ctx.path)
+            inst = s.instantiate(t)
+            new = ctx.path[saved:]
+            del ctx.path[saved:]
+            facts.extend(new + [inst])
+            frontier.extend(new + [inst])
     for _ in range(rounds):
         before = {k: set(v) for k, v in apps.items()}
         collect_apps(frontier, decls_by_id, seen, apps)
+        if idx_schemas and idx_decls:
+            collect_terms(frontier, idx_decls, idx_seen, idx_apps)
         frontier = []
+        for s in idx_schemas:
+            for tid, t in list(idx_apps.items()):
+                if (id(s), tid) in idx_done:
+                    continue
+                idx_done.add((id(s), tid))
+                saved = len(ctx.path)
+                inst = s.instantiate(t)
+                new = ctx.path[saved:]
+                del ctx.path[saved:]
+                frontier.extend(new + [inst])
+                ninst += 1
         # pair schemas: every ordered pair of occurrences of the trigger function
         for did, occ in apps.items():
             for s in trig[did][1]:
